@@ -6,6 +6,7 @@ import (
 	"math/big"
 	"os"
 	"path/filepath"
+	"runtime"
 	"sort"
 	"strings"
 	"sync"
@@ -165,6 +166,12 @@ func loadProgram(repo, harnessDir string, cfg *Config) (*Engine, error) {
 		"github.com/cosmos/cosmos-sdk/x/params/types",
 		"github.com/cosmos/cosmos-sdk/store/types",
 	}
+	// build every package the engine may execute up front (lazy building from several workers races)
+	for path, p := range eng.pkgs {
+		if eng.execPath(path) || !eng.skipInit(path) {
+			p.Build()
+		}
+	}
 	eng.findMutableGlobals()
 	eng.loadSecs = time.Since(t0).Seconds()
 	return eng, nil
@@ -275,6 +282,19 @@ func (e *Engine) implements(t types.Type, it *types.Interface) bool {
 	return types.Implements(t, it)
 }
 
+func firstEngineFrames(st string) string {
+	var out []string
+	for _, l := range strings.Split(st, "\n") {
+		if strings.Contains(l, "/verif/engine/") {
+			out = append(out, strings.TrimSpace(l))
+			if len(out) >= 8 {
+				break
+			}
+		}
+	}
+	return strings.Join(out, " <- ")
+}
+
 // ---- exploration
 
 type Obligation struct {
@@ -299,6 +319,7 @@ type ObResult struct {
 	Funcs       map[string]int
 	WallS       float64
 	PathLimited bool
+	Spurious    []string
 }
 
 func (e *Engine) newMachine() *Machine {
@@ -333,7 +354,7 @@ func (m *Machine) resetPath(prefix []int) {
 			c.elems[0] = m.deepCopy(v)
 		}
 	}
-	m.in.nlUF = true
+	m.in.nlUF = !m.forceExact
 	m.snaps = nil
 	m.paramProto = map[string]types.Type{}
 	m.paramCells = map[string]*Cell{}
@@ -358,7 +379,11 @@ func (m *Machine) runPath(ob *Obligation, prefix []int) (res *PathResult, alts [
 				res.Reason = fmt.Sprintf("%s at %s: %s", x.kind, x.site, m.panicText(x))
 				m.onUncaughtPanic(x)
 			default:
-				panic(r)
+				// engine-internal failure: never silently lose the path
+				buf := make([]byte, 1<<14)
+				n := runtime.Stack(buf, false)
+				res.End = "abort:unsupported"
+				res.Reason = fmt.Sprintf("ENGINE PANIC: %v at %s\n%s", r, m.repoSite(), firstEngineFrames(string(buf[:n])))
 			}
 		}
 		res.Trace = append([]int{}, m.trace...)
@@ -516,6 +541,46 @@ func (e *Engine) explore(ob *Obligation) *ObResult {
 		}()
 	}
 	wg.Wait()
+	// counterexample refinement: a violation found under the uninterpreted-product abstraction is
+	// re-derived on the same path with exact multiplication, so that its model replays natively
+	// (unsat there = the abstraction's artefact, dropped; unknown = the abstract model is kept)
+	if len(r.Violations) > 0 {
+		m := e.newMachine()
+		m.forceExact = true
+		m.sol.tlimit = 120000
+		var kept []*Violation
+		for _, v := range r.Violations {
+			if !v.usedNL {
+				kept = append(kept, v)
+				continue
+			}
+			res, _ := m.runPath(ob, v.Trace)
+			found, incon := false, false
+			for _, v2 := range res.Violations {
+				if v2.Label == v.Label && v2.Kind == v.Kind && v2.Outside == v.Outside && strings.Join(v2.KFs, ",") == strings.Join(v.KFs, ",") {
+					v2.refined = "exact"
+					kept = append(kept, v2)
+					found = true
+					break
+				}
+			}
+			for _, s := range res.Incon {
+				if strings.Contains(s, v.Label) || strings.Contains(s, "unknown") {
+					incon = true
+				}
+			}
+			if !found {
+				if incon {
+					v.refined = "abstract-model(exact query unknown)"
+					kept = append(kept, v)
+				} else {
+					r.Spurious = append(r.Spurious, fmt.Sprintf("%s/%s at %s: unsat with exact multiplication", v.Label, v.Kind, v.Site))
+				}
+			}
+		}
+		m.sol.Close()
+		r.Violations = kept
+	}
 	r.WallS = time.Since(t0).Seconds()
 	sort.Strings(r.Incon)
 	return r
